@@ -30,10 +30,18 @@ type Replica struct {
 	Handles map[string]*bug.Bug  // live handle per bug id, replaced by MergeResult.Entity like the cache does
 }
 
-// World is n replicas sharing one bare remote "origin".
+// RemoteNames are the bare remotes a world can have; every replica has all of the world's remotes configured.
+var RemoteNames = []string{"origin", "alt"}
+
+// World is n replicas sharing one bare remote "origin" (and, when asked for, a second one "alt":
+// with two remotes two replicas can each publish their own branch and fetch the other's, so both
+// merge the same pair of heads).
 type World struct {
 	Dir        string
-	RemotePath string
+	RemotePath string   // path of "origin"
+	Remotes    []string // names
+	RemotePaths map[string]string
+	IdEdits    int // identity versions committed by idedit actions
 	Replicas   []*Replica
 	AuthorIds  []string
 	Seed       uint64
@@ -64,12 +72,27 @@ func mkdirTemp(prefix string) string {
 
 // NewWorld builds n replicas + remote; identities are written in the documented
 // format with fixed unix_time and nonce so that every id is a function of seed.
-func NewWorld(n int, seed uint64) (*World, error) {
+func NewWorld(n int, seed uint64) (*World, error) { return NewWorldN(n, 1, seed) }
+
+// NewWorldN is NewWorld with nRemotes (1..2) bare remotes.
+func NewWorldN(n, nRemotes int, seed uint64) (*World, error) {
 	entropy.Seed(seed)
-	w := &World{Dir: mkdirTemp("world-"), Seed: seed, Committed: map[string][]string{}, Files: map[string][]byte{}, ROps: map[string]refmodel.ROp{}}
+	if nRemotes < 1 {
+		nRemotes = 1
+	}
+	w := &World{Dir: mkdirTemp("world-"), Seed: seed, Committed: map[string][]string{}, Files: map[string][]byte{}, ROps: map[string]refmodel.ROp{}, RemotePaths: map[string]string{}}
 	w.RemotePath = filepath.Join(w.Dir, "remote")
-	if _, err := repository.InitBareGoGitRepo(w.RemotePath, "git-bug"); err != nil {
-		return nil, err
+	for i := 0; i < nRemotes; i++ {
+		name := RemoteNames[i]
+		p := w.RemotePath
+		if i > 0 {
+			p = filepath.Join(w.Dir, "remote-"+name)
+		}
+		if _, err := repository.InitBareGoGitRepo(p, "git-bug"); err != nil {
+			return nil, err
+		}
+		w.Remotes = append(w.Remotes, name)
+		w.RemotePaths[name] = p
 	}
 	for i := 0; i < n; i++ {
 		p := filepath.Join(w.Dir, fmt.Sprintf("r%d", i))
@@ -77,8 +100,10 @@ func NewWorld(n int, seed uint64) (*World, error) {
 		if err != nil {
 			return nil, err
 		}
-		if err := repo.AddRemote("origin", w.RemotePath); err != nil {
-			return nil, err
+		for _, name := range w.Remotes {
+			if err := repo.AddRemote(name, w.RemotePaths[name]); err != nil {
+				return nil, err
+			}
 		}
 		w.Replicas = append(w.Replicas, &Replica{Idx: i, Path: p, Repo: repo, Handles: map[string]*bug.Bug{}})
 	}
@@ -98,8 +123,10 @@ func NewWorld(n int, seed uint64) (*World, error) {
 		}
 		w.AuthorIds = append(w.AuthorIds, id)
 	}
-	if _, err := identity.Push(r0.Repo, "origin"); err != nil {
-		return nil, err
+	for _, name := range w.Remotes {
+		if _, err := identity.Push(r0.Repo, name); err != nil {
+			return nil, err
+		}
 	}
 	for _, r := range w.Replicas {
 		if r.Idx != 0 {
@@ -135,13 +162,31 @@ func (w *World) OpenRemote() (*repository.GoGitRepo, error) {
 	return repository.OpenGoGitRepo(w.RemotePath, "git-bug", nil)
 }
 
+// OpenRemoteNamed opens one of the world's remotes.
+func (w *World) OpenRemoteNamed(name string) (*repository.GoGitRepo, error) {
+	return repository.OpenGoGitRepo(w.RemotePaths[name], "git-bug", nil)
+}
+
+// remoteName maps an action's remote index on the world's remotes.
+func (w *World) remoteName(i int) string {
+	if i < 0 {
+		i = -i
+	}
+	return w.Remotes[i%len(w.Remotes)]
+}
+
 // ---------------------------------------------------------------- actions
 
 type Action struct {
-	Kind string   `json:"kind"` // new, edit, push, pull
+	Kind string   `json:"kind"` // new, edit, push, pull, idedit
 	R    int      `json:"r"`
 	Bug  int      `json:"bug,omitempty"`
 	Ops  []OpSpec `json:"ops,omitempty"`
+	Rem  int      `json:"rem,omitempty"` // push, pull: which remote (index modulo the world's remotes)
+	N    int      `json:"n,omitempty"`   // idedit: how many versions are appended to the replica's own identity
+	// edit: Bug indexes the world's bugs in creation order instead of the replica's own sorted list
+	// (skipped when the replica does not hold that bug), so that two replicas can be told to edit the same bug
+	Global bool `json:"global,omitempty"`
 }
 
 func (a Action) String() string {
@@ -153,16 +198,30 @@ func (a Action) String() string {
 		}
 		return fmt.Sprintf("%s(r%d,b%d,[%s])", a.Kind, a.R, a.Bug, strings.Join(ks, " "))
 	}
-	return fmt.Sprintf("%s(r%d)", a.Kind, a.R)
+	if a.Kind == "idedit" {
+		return fmt.Sprintf("idedit(r%d,+%d)", a.R, a.N)
+	}
+	return fmt.Sprintf("%s(r%d,%s)", a.Kind, a.R, RemoteNames[a.Rem%len(RemoteNames)])
 }
 
 // GenActions draws an action list. editWeight etc. tune the mix so that
 // diverged merges with unequal branch lengths are common.
 func GenActions(nReplicas, minLen, maxLen, nFiles int) *rapid.Generator[[]Action] {
+	return GenActionsR(nReplicas, 1, minLen, maxLen, nFiles)
+}
+
+// GenActionsR is GenActions for a world with nRemotes remotes; it also draws edits of the replicas' own identities.
+func GenActionsR(nReplicas, nRemotes, minLen, maxLen, nFiles int) *rapid.Generator[[]Action] {
 	one := rapid.Custom(func(t *rapid.T) Action {
-		kind := rapid.SampledFrom([]string{"new", "edit", "edit", "edit", "edit", "edit", "edit", "push", "push", "push", "pull", "pull", "pull", "pull"}).Draw(t, "kind")
+		kind := rapid.SampledFrom([]string{"new", "edit", "edit", "edit", "edit", "edit", "edit", "push", "push", "push", "pull", "pull", "pull", "pull", "idedit"}).Draw(t, "kind")
 		a := Action{Kind: kind, R: rapid.IntRange(0, nReplicas-1).Draw(t, "r")}
 		switch kind {
+		case "push", "pull":
+			if nRemotes > 1 {
+				a.Rem = rapid.IntRange(0, nRemotes-1).Draw(t, "rem")
+			}
+		case "idedit":
+			a.N = rapid.IntRange(1, 3).Draw(t, "n")
 		case "new":
 			a.Ops = append(a.Ops, GenCreateSpec(nReplicas, nFiles).Draw(t, "create"))
 			k := rapid.IntRange(0, 2).Draw(t, "extra")
@@ -178,8 +237,44 @@ func GenActions(nReplicas, minLen, maxLen, nFiles int) *rapid.Generator[[]Action
 		}
 		return a
 	})
+	// cross: with two remotes, replicas x and y each publish their own branch of one bug on a different
+	// remote and fetch the other's, so both merge the same pair of heads on their own (opposite parent order)
+	// and hold the same operations under different head commits. Expanded into primitive actions here.
+	cross := rapid.Custom(func(t *rapid.T) []Action {
+		x := rapid.IntRange(0, nReplicas-1).Draw(t, "x")
+		y := (x + rapid.IntRange(1, nReplicas-1).Draw(t, "dy")) % nReplicas
+		b := rapid.IntRange(0, 3).Draw(t, "bug")
+		edit := func(r int) Action {
+			a := Action{Kind: "edit", R: r, Bug: b, Global: true}
+			k := rapid.IntRange(1, 3).Draw(t, "k")
+			for i := 0; i < k; i++ {
+				a.Ops = append(a.Ops, GenOpSpec(nReplicas, nFiles).Draw(t, "op"))
+			}
+			return a
+		}
+		out := []Action{{Kind: "pull", R: x, Rem: 0}, {Kind: "pull", R: x, Rem: 1}, {Kind: "push", R: x, Rem: 0}, {Kind: "push", R: x, Rem: 1}}
+		if rapid.Bool().Draw(t, "yCatchesUp") {
+			out = append(out, Action{Kind: "pull", R: y, Rem: 0}, Action{Kind: "push", R: y, Rem: 0}, Action{Kind: "push", R: y, Rem: 1}, Action{Kind: "pull", R: x, Rem: 0})
+		}
+		out = append(out, edit(x), edit(y),
+			Action{Kind: "push", R: x, Rem: 0}, Action{Kind: "push", R: y, Rem: 1},
+			Action{Kind: "pull", R: x, Rem: 1}, Action{Kind: "pull", R: y, Rem: 0})
+		return out
+	})
 	return rapid.Custom(func(t *rapid.T) []Action {
-		acts := rapid.SliceOfN(one, minLen, maxLen).Draw(t, "actions")
+		var acts []Action
+		if nRemotes > 1 {
+			n := rapid.IntRange(minLen, maxLen).Draw(t, "n")
+			for len(acts) < n {
+				if rapid.IntRange(0, 11).Draw(t, "macro") == 0 {
+					acts = append(acts, cross.Draw(t, "cross")...)
+				} else {
+					acts = append(acts, one.Draw(t, "action"))
+				}
+			}
+		} else {
+			acts = rapid.SliceOfN(one, minLen, maxLen).Draw(t, "actions")
+		}
 		// every world starts with a bug that is shared, so that edits have something to diverge on
 		first := Action{Kind: "new", R: 0, Ops: []OpSpec{GenCreateSpec(nReplicas, nFiles).Draw(t, "create0")}}
 		out := []Action{first, {Kind: "push", R: 0}}
@@ -232,11 +327,23 @@ func (w *World) Exec(a Action) error {
 			break
 		}
 		id := ids[a.Bug%len(ids)]
+		if a.Global {
+			id = w.BugIds[a.Bug%len(w.BugIds)]
+			held := false
+			for _, x := range ids {
+				held = held || x == id
+			}
+			if !held {
+				break
+			}
+		}
 		err = w.execEdit(r, &id, a.Ops)
 	case "push":
-		err = w.Push(r)
+		err = w.PushTo(r, w.remoteName(a.Rem))
 	case "pull":
-		_, err = w.Pull(r)
+		_, err = w.PullFrom(r, w.remoteName(a.Rem))
+	case "idedit":
+		err = w.editIdentity(r, a.N)
 	default:
 		panic("unknown action " + a.Kind)
 	}
@@ -348,12 +455,35 @@ func (w *World) execEdit(r *Replica, bugId *string, specs []OpSpec) error {
 	return nil
 }
 
-// Push pushes identities then bugs. A rejected (non-fast-forward) push is legal.
-func (w *World) Push(r *Replica) error {
-	if _, err := identity.Push(r.Repo, "origin"); err != nil && !isPushRejection(err) {
+// editIdentity appends n versions to the replica's own identity (identity number r.Idx: nobody else
+// edits it, so identities never diverge and every identity merge is a fast-forward or nothing).
+func (w *World) editIdentity(r *Replica, n int) error {
+	id := entity.Id(w.AuthorIds[r.Idx])
+	i, err := identity.ReadLocal(r.Repo, id)
+	if err != nil {
+		return &ExecError{"read-own-identity/" + Normalize(err.Error()), err.Error()}
+	}
+	for k := 0; k < n; k++ {
+		w.IdEdits++
+		name := fmt.Sprintf("user%d-v%d", r.Idx, w.IdEdits)
+		if err := i.Mutate(r.Repo, func(m *identity.Mutator) { m.Name = name }); err != nil {
+			return &ExecError{"identity-mutate/" + Normalize(err.Error()), err.Error()}
+		}
+		if err := i.Commit(r.Repo); err != nil {
+			return &ExecError{"identity-commit/" + Normalize(err.Error()), err.Error()}
+		}
+	}
+	return nil
+}
+
+// Push pushes identities then bugs to "origin". A rejected (non-fast-forward) push is legal.
+func (w *World) Push(r *Replica) error { return w.PushTo(r, "origin") }
+
+func (w *World) PushTo(r *Replica, remoteName string) error {
+	if _, err := identity.Push(r.Repo, remoteName); err != nil && !isPushRejection(err) {
 		return &ExecError{"push-identities/" + Normalize(err.Error()), err.Error()}
 	}
-	if _, err := bug.Push(r.Repo, "origin"); err != nil && !isPushRejection(err) {
+	if _, err := bug.Push(r.Repo, remoteName); err != nil && !isPushRejection(err) {
 		return &ExecError{"push-bugs/" + Normalize(err.Error()), err.Error()}
 	}
 	return nil
@@ -367,6 +497,11 @@ func isPushRejection(err error) bool {
 // PullReport is what a pull did, for the C02 oracle.
 type PullReport struct {
 	Replica   int
+	Remote    string
+	// identities: version id chains (independent reader) and the name carried by the last version
+	IdPre, IdRemote, IdPost map[string][]string
+	IdEntityName            map[string]string // name of the entity handed back with new/updated
+	IdStoredName            map[string]string // name of the identity as stored after the merge
 	Pre       map[string][]string // bug id -> op ids readable before (real reader)
 	PreRefs   map[string]string
 	RemoteOps map[string][]string // bug id -> op ids on the bare remote right after the fetch
@@ -416,9 +551,27 @@ func readAllBugs(repo repository.ClockedRepo) (ok map[string][]string, bad map[s
 	return
 }
 
-// Pull = fetch + merge for identities then bugs, like RepoCache.Pull.
-func (w *World) Pull(r *Replica) (*PullReport, error) {
-	rep := &PullReport{Replica: r.Idx, Entities: map[string][]string{}}
+// identityChains reads the version chain of every identity under prefix (refs/identities/ or refs/remotes/<r>/identities/).
+func identityChains(repo repository.RepoData, prefix string) map[string][]string {
+	out := map[string][]string{}
+	refs, err := repo.ListRefs(prefix)
+	if err != nil {
+		return out
+	}
+	for _, ref := range refs {
+		if chain, err := ondisk.ReadIdentityChain(repo, ref); err == nil {
+			out[strings.TrimPrefix(ref, prefix)] = chain
+		}
+	}
+	return out
+}
+
+// Pull = fetch + merge for identities then bugs from "origin", like RepoCache.Pull.
+func (w *World) Pull(r *Replica) (*PullReport, error) { return w.PullFrom(r, "origin") }
+
+func (w *World) PullFrom(r *Replica, remoteName string) (*PullReport, error) {
+	rep := &PullReport{Replica: r.Idx, Remote: remoteName, Entities: map[string][]string{}, IdEntityName: map[string]string{}, IdStoredName: map[string]string{}}
+	rep.IdPre = identityChains(r.Repo, "refs/identities/")
 	var preBad map[string]string
 	rep.Pre, preBad = readAllBugs(r.Repo)
 	for id, e := range preBad {
@@ -426,24 +579,38 @@ func (w *World) Pull(r *Replica) (*PullReport, error) {
 	}
 	rep.PreRefs = refsUnder(r.Repo, "refs/bugs/")
 
-	if _, err := identity.Fetch(r.Repo, "origin"); err != nil {
+	if _, err := identity.Fetch(r.Repo, remoteName); err != nil {
 		return nil, &ExecError{"fetch-identities/" + Normalize(err.Error()), err.Error()}
 	}
-	for res := range identity.MergeAll(r.Repo, "origin") {
+	rep.IdRemote = identityChains(r.Repo, "refs/remotes/"+remoteName+"/identities/")
+	for res := range identity.MergeAll(r.Repo, remoteName) {
 		rep.IdResults = append(rep.IdResults, res)
+		if res.Err == nil && (res.Status == entity.MergeStatusNew || res.Status == entity.MergeStatusUpdated) {
+			if i, ok := res.Entity.(*identity.Identity); ok && i != nil {
+				rep.IdEntityName[string(res.Id)] = i.Name()
+			}
+		}
 	}
-	if _, err := bug.Fetch(r.Repo, "origin"); err != nil {
+	rep.IdPost = identityChains(r.Repo, "refs/identities/")
+	for id := range rep.IdPost {
+		if i, err := identity.ReadLocal(r.Repo, entity.Id(id)); err == nil {
+			rep.IdStoredName[id] = i.Name()
+		} else {
+			rep.IdStoredName[id] = "unreadable: " + err.Error()
+		}
+	}
+	if _, err := bug.Fetch(r.Repo, remoteName); err != nil {
 		return nil, &ExecError{"fetch-bugs/" + Normalize(err.Error()), err.Error()}
 	}
 	// what the remote holds: read the bare remote itself (single threaded, so it equals the fetched state)
-	remote, err := w.OpenRemote()
+	remote, err := w.OpenRemoteNamed(remoteName)
 	if err != nil {
 		return nil, err
 	}
 	rep.RemoteOps, rep.RemoteErr = readAllBugs(remote)
 	_ = remote.Close()
 
-	for res := range bug.MergeAll(r.Repo, Resolvers(r.Repo), "origin", r.Authors[r.Idx]) {
+	for res := range bug.MergeAll(r.Repo, Resolvers(r.Repo), remoteName, r.Authors[r.Idx]) {
 		rep.Results = append(rep.Results, res)
 		if res.Err == nil && (res.Status == entity.MergeStatusNew || res.Status == entity.MergeStatusUpdated) {
 			if b, ok := res.Entity.(*bug.Bug); ok && b != nil {
@@ -462,18 +629,30 @@ func (w *World) Pull(r *Replica) (*PullReport, error) {
 
 // SyncToQuiescence: rounds of pull+push over all replicas until no ref changes.
 func (w *World) SyncToQuiescence() (rounds int, err error) {
-	max := 2*len(w.Replicas) + 2
+	max := 2*len(w.Replicas)*len(w.Remotes) + 2
 	for rounds = 1; rounds <= max; rounds++ {
 		before := w.allRefs()
 		for _, r := range w.Replicas {
-			if _, err := w.Pull(r); err != nil {
-				return rounds, err
+			// pull from every remote first, then push to every remote: with "pull a, push a, pull b, push b"
+			// two replicas and two remotes never settle (each turn leaves the two remotes on different
+			// merge commits, which the other replica has to merge again) - a liveness matter of the
+			// schedule, outside C01, noted in DESIGN.md
+			for _, name := range w.Remotes {
+				if _, err := w.PullFrom(r, name); err != nil {
+					return rounds, err
+				}
 			}
-			if err := w.Push(r); err != nil {
-				return rounds, err
+			for _, name := range w.Remotes {
+				if err := w.PushTo(r, name); err != nil {
+					return rounds, err
+				}
 			}
 		}
-		if before == w.allRefs() {
+		after := w.allRefs()
+		if os.Getenv("VERIF_DEBUG_SYNC") != "" {
+			fmt.Fprintf(os.Stderr, "---- round %d\n%s", rounds, after)
+		}
+		if before == after {
 			return rounds, nil
 		}
 	}
@@ -496,9 +675,11 @@ func (w *World) allRefs() string {
 	for _, r := range w.Replicas {
 		dump(fmt.Sprintf("r%d", r.Idx), r.Repo)
 	}
-	if remote, err := w.OpenRemote(); err == nil {
-		dump("remote", remote)
-		_ = remote.Close()
+	for _, name := range w.Remotes {
+		if remote, err := w.OpenRemoteNamed(name); err == nil {
+			dump("remote:"+name, remote)
+			_ = remote.Close()
+		}
 	}
 	return sb.String()
 }
